@@ -71,9 +71,26 @@ def run(ctx):
                         mode = "achievable"
                 c = {"fn": "completion", "coefs": Q.cplx_hex(pre, pim), "complex": True, "coef_type": rng.choice(["P", "P", "p"]),
                      "kind": kind, "mode": mode, "timeout": 120}
-                if rng.random() < 0.2:
+                u = rng.random()
+                if u < 0.2:
                     c["tol"] = hexf(1e-4)
+                elif u < 0.35:
+                    c["tol"] = hexf(rng.choice([1e-8, 1e-9, 1e-10]))     # a tighter request: a return has to meet it
+                if rng.random() < 0.2 and mode == "achievable":
+                    # the same corner rounded to single precision and passed as a complex64 array (the values are exact in both types)
+                    import struct
+                    f32 = lambda x: struct.unpack("f", struct.pack("f", x))[0]
+                    c["coefs"] = Q.cplx_hex([f32(x) for x in pre], [f32(x) for x in pim])
+                    c["dtype"] = "complex64"
+                    c["mode"] = "rounded32"
                 cases.append(c)
+        # directed: +-T_n and i T_n (1 - |P|^2 has double roots: the completion is only accurate to ~1e-8) at tight tolerances
+        for n in ((3, 5, 6, 7) if quick else range(2, 13)):
+            tn = [float(x) for x in Q.cheb2mono([Fraction(0)] * n + [Fraction(1)])]
+            for pre, pim in ((tn, [0.0] * (n + 1)), ([0.0] * (n + 1), tn)):
+                for tol in (1e-9, 1e-11):
+                    cases.append({"fn": "completion", "coefs": Q.cplx_hex(pre, pim), "complex": True, "coef_type": "P", "kind": "T_n",
+                                  "mode": "achievable", "tol": hexf(tol), "timeout": 120})
         # directed: short inputs scaled below 1 (non-corners of degree 1 and 2), which only the identity coefficient of F~F+G~G exposes
         for d in (1, 2):
             for rep in range(3 if quick else 12):
